@@ -512,26 +512,21 @@ char * snoopy_configfile_getOptionValueAsString_syslog_level ()
  * snoopy_configfile_syslog_value_cleanup
  *
  * Description:
- *     Convert existing string to upper case, and remove LOG_ prefix
+ *     Convert existing string to upper case
  *
  * Params:
  *     confVal   Pointer to string to change and to be operated on
  *
  * Return:
- *     char *    Pointer to cleaned string (either the same as initial argument,
- *               or 4 characters advanced, to remove LOG_ prefix
+ *     char *    Pointer to cleaned string (the same as initial argument)
  */
 char *snoopy_configfile_syslog_value_cleanup (char *confVal)
 {
-    char *confValCleaned;
-
     // Convert to upper case
     snoopy_util_string_toUpper(confVal);
 
-    // Remove LOG_ prefix
-    confValCleaned = snoopy_configfile_syslog_value_remove_prefix(confVal);
-
-    return confValCleaned;
+    // The optional LOG_ prefix is removed (once) by snoopy_util_syslog_convert*ToInt()
+    return confVal;
 }
 
 
